@@ -39,13 +39,14 @@ def reset_globals():
     okl._save_strategy = None
 
 
-def make_lh(base):
+def make_lh(base, small=False):
     import numpy as np
     import nifty.cl as ift
     if base["model"] == "nl3":
         dom = ift.UnstructuredDomain(3)
         a, b, c = (ift.FieldAdapter(dom, k) for k in "abc")
-        model = a * (0.3 * b).exp() + c
+        # small=True: the likelihood of the early iterations of a run whose parameter space grows later
+        model = a * (0.3 * b).exp() + c if not small else a * (0.3 * b).exp()
         d = ift.makeField(dom, np.array([0.3, -1.2, 2.0]))
     else:
         dom = ift.RGSpace(4)
@@ -60,6 +61,12 @@ def drive(base, resume, comm=None):
     """One call of the real driver (fresh-process globals, mounted SimFS)."""
     import nifty.cl as ift
     lh = make_lh(base)
+    if base.get("grow_at"):
+        # a likelihood given as a function of the iteration whose domain gains the key 'c' at iteration grow_at
+        # (no transition: the driver initialises the new key itself, from the iteration's random numbers)
+        lh_full, lh_small, g = lh, make_lh(base, small=True), base["grow_at"]
+        lh = lambda i: lh_small if i < g else lh_full       # noqa: E731
+        lh.domain = lh_full.domain
     ic = ift.AbsDeltaEnergyController(1e-6, iteration_limit=10)
     mini = ift.NewtonCG(ift.AbsDeltaEnergyController(1e-6, iteration_limit=4))
     ns = base["n_samples"]
@@ -121,6 +128,11 @@ def gen_base(rng, tier):
          "point_estimates": [rng.choice(keys)] if rng.random() < 0.25 else [],
          "bufsize": rng.choice([1, 64, 4096, 8192, None]), "nranks": 1,
          "fresh": rng.choice(["true", "true", "only0", "alt"]), "initial_position": rng.random() < 0.3}
+    if model == "nl3" and rng.random() < 0.2:
+        b["grow_at"] = rng.randrange(1, b["nit"])
+        b["constants"] = [k for k in b["constants"] if k != "c"]
+        b["point_estimates"] = [k for k in b["point_estimates"] if k != "c"]
+        b["initial_position"] = False
     if tier == "thorough" and rng.random() < 0.25:
         b["nranks"] = rng.choice([2, 3])
         b["sched_seed"] = rng.randrange(10**6)
@@ -293,6 +305,8 @@ def bases_for(tier, seed):
     bases.append(dict(SIMPLE, model="lin2", nit=2, n_samples=1, strategy="latest", nranks=3, sched_seed=12))
     bases.append(dict(SIMPLE, model="nl3", nit=4, n_samples=2, fresh="only0"))
     bases.append(dict(SIMPLE, model="nl3", nit=4, n_samples=1, fresh="alt", strategy="latest"))
+    bases.append(dict(SIMPLE, model="nl3", nit=3, n_samples=1, strategy="all", grow_at=2))
+    bases.append(dict(SIMPLE, model="nl3", nit=3, n_samples=0, strategy="latest", grow_at=1))
     while len(bases) < n:
         bases.append(gen_base(rng, tier))
     return bases
